@@ -38,7 +38,7 @@ pub fn stream_records(cx: &mut Ctx, out: &mut Vec<Rec>, id: u16, role: u16, nois
                 0 => rem.min(65535),
                 1 => cx.ch.range(1, 9).min(rem),
                 2 => cx.ch.range(1, rem.min(700)),
-                _ => cx.ch.one_of(&[1usize, 7, 8, 9, 255, 256, 65535]).min(rem),
+                _ => cx.ch.one_of(&[1usize, 7, 8, 9, 255, 256, 16384, 32767, 32768, 32769, 65535]).min(rem),
             };
             if k == 65535 { cx.probe("record_65535"); }
             let pad = gen_padding(cx);
@@ -598,6 +598,7 @@ pub fn gen_request(cx: &mut Ctx, noise_num: u32, pair_cap: usize, noise_pair_max
     let mut recs = Vec::new();
     preamble_records(cx, &mut recs, id, role, flags, &pairs, noise_num, noise_pair_max, idle_noise);
     stream_records(cx, &mut recs, id, role, noise_num, noise_pair_max, compliant, phase);
+    junk_reserved(cx, &mut recs);
     ReqCase { recs, id, role }
 }
 
